@@ -273,6 +273,22 @@ void run_t(vf::Ctx& c)
             ++c.sub;
         }
         VF_CHECK(c, P.generator() == Z.generator(), "C06:generator", "the generators of the two runs differ");
+        // the combination of the results so far, which the built-in callback reports and bases its stop decision on,
+        // is the same number in both runs (NaN in both counts as the same) after every iteration
+        auto same_number = [](T a, T b) { return (std::isnan(a) && std::isnan(b)) || vf::same_bits(a, b); };
+        for (std::size_t j = 1; j <= iters; ++j)
+        {
+            auto const cp = hep::accumulate<hep::weighted_with_variance>(P.results().begin(), P.results().begin() + j);
+            auto const cz = hep::accumulate<hep::weighted_with_variance>(Z.results().begin(), Z.results().begin() + j);
+            VF_CHECK(c, same_number(cp.value(), cz.value()) && same_number(cp.error(), cz.error()), "C06:combination-differs", "after " << j << " iterations the variance-weighted "
+                << "combination is " << vf::show(cp.value()) << " +- " << vf::show(cp.error()) << " in the poisoned run and " << vf::show(cz.value()) << " +- " << vf::show(cz.error())
+                << " in the run where the same points returned zero");
+            auto const ep = hep::accumulate<hep::weighted_equally>(P.results().begin(), P.results().begin() + j);
+            auto const ez = hep::accumulate<hep::weighted_equally>(Z.results().begin(), Z.results().begin() + j);
+            VF_CHECK(c, same_number(ep.value(), ez.value()) && same_number(ep.error(), ez.error()), "C06:combination-differs", "after " << j << " iterations the equally weighted "
+                << "combination differs between the two runs");
+            if (P.results()[j - 1].non_zero_calls() > 0 && P.results()[j - 1].finite_calls() == 0) { c.label("iteration-with-only-non-finite-values"); }
+        }
     };
 
     if (integrator == 0)
